@@ -12,7 +12,7 @@ use std::rc::Rc;
 pub const DEF: PropDef = PropDef {
     id: "C20",
     level: "exploration",
-    rule: "a corpus of programs (succeeding, failing at parse time on various lines, failing at run time after k lines of output, reading input, printing multi-line strings, building dictionaries) x 7 standard-input contents (empty, one line, several lines, no final newline, non-ASCII, a line that is not valid UTF-8, leading blank lines) x sub-commands exec (separate pipes and stdout+stderr merged into one pipe), lint, parse; plus usage errors (unknown sub-command, missing argument, missing file, directory as file) and dictionary programs run as separate processes under 8 hash seeds (LD_PRELOAD getrandom shim); oracle (independent of src/cli): stdout equals what frontend::parser::parse + exec::exec_using write for the same text and input; `parse` prints the pretty Debug tree of the library's parse; `lint` prints one line per library diagnostic (its line and issue) followed by one tab-indented line per suggestion and nothing else; errors go to stderr as `<prefix naming parse/runtime>: <library message>`, on the merged pipe the error line comes after all output, usage errors exit non-zero; non-trivial = every case (a process is spawned and compared); distinct = distinct (program, input, mode)",
+    rule: "a corpus of programs (succeeding, failing at parse time on various lines, failing at run time after k lines of output, failing with messages that quote values of 60..5000 characters / elements (ASCII and multi-byte), reading input, printing multi-line strings, building dictionaries) x 7 standard-input contents (empty, one line, several lines, no final newline, non-ASCII, a line that is not valid UTF-8, leading blank lines) x sub-commands exec (separate pipes and stdout+stderr merged into one pipe), lint, parse; plus usage errors (unknown sub-command, missing argument, missing file, directory as file) and dictionary programs run as separate processes under 8 hash seeds (LD_PRELOAD getrandom shim); oracle (independent of src/cli): stdout equals what frontend::parser::parse + exec::exec_using write for the same text and input; `parse` prints the pretty Debug tree of the library's parse; `lint` prints one line per library diagnostic (its line and issue) followed by one tab-indented line per suggestion and nothing else; errors go to stderr as `<prefix naming parse/runtime>: <library message>`, on the merged pipe the error line comes after all output, usage errors exit non-zero; non-trivial = every case (a process is spawned and compared); distinct = distinct (program, input, mode)",
     assumptions: &["NO_COLOR=1 for both sides", "exit status after parse / runtime errors and with no arguments at all is observed and reported, not judged (the property does not state it)", "the binaries are rebuilt from /repo by ./check before the run"],
     build,
     exhaustive: true,
@@ -57,6 +57,18 @@ fn corpus_programs(tier: Tier) -> (Vec<String>, usize) {
         ] {
             v.push(format!("{}{}say 99\n", pre, e));
         }
+    }
+    // runtime errors whose message quotes a long value (message length thresholds, multi-byte text at the cut)
+    for n in [60usize, 100, 119, 120, 121, 127, 128, 255, 256, 1000, 5000] {
+        for unit in ["z", "é", "😀z"] {
+            let s: String = unit.repeat(n);
+            v.push(format!("say 1\ncast \"{}\" into y\nsay 99\n", s));
+            v.push(format!("say 1\nput \"{}\" into x\nsay x taking 1\nsay 99\n", s));
+            v.push(format!("say 1\nput \"{}\" into x\nsay 1 < x\nsay 99\n", s));
+        }
+        let list: String = (0..n).map(|i| i.to_string()).collect::<Vec<_>>().join(", ");
+        v.push(format!("rock x with {}\nsay x at x\nsay 99\n", list));
+        v.push(format!("rock x with {}\nlet x at \"kéy\" be \"vé\"\ncut x\nsay 99\n", list));
     }
     // assignments of constants (lint diagnostics with and without suggestions)
     for rhs in ["0 - 5", "-5", "-0", "1 over 0", "0 over 0", "\"a\nb\"", "5", "\"a b\"", "105.25", "y"] {
